@@ -127,10 +127,23 @@ func sum(a []int) int {
 
 // chooseConnOpt makes the connection pick in switchboard.pickRandConn an explorer choice and
 // leaves every other draw to the PRF.
-func chooseConnOpt() func(n int, tag string) int {
+func chooseConnOpt() func(n int, tag string) int { return chooseConnDraws("prf") }
+
+// chooseConnDraws: the connection choice is an explorer choice; small owned random draws (a single
+// random byte, rand.Int below 2^16: padding lengths) are pinned to their minimum / maximum, or left to
+// the seeded PRF.
+func chooseConnDraws(draws string) func(n int, tag string) int {
 	return func(n int, tag string) int {
 		if tag == "mrand.Uint32N" {
 			return vrt.Choose(n, "conn")
+		}
+		if n <= 1<<16 {
+			switch draws {
+			case "min":
+				return 0
+			case "max":
+				return n - 1
+			}
 		}
 		return -1
 	}
